@@ -94,6 +94,23 @@ func (p *Program) desc(v ssa.Value, fr *Frame, d int) string {
 		return p.desc(x.X, fr, d+1)
 	case *ssa.Call:
 		name := CalleeName(x)
+		if p.inline {
+			if f := StaticFn(x); f != nil && p.IsHelios(f) && f.Signature.Recv() == nil && f.Blocks != nil && d < 6 {
+				var rets []*ssa.Return
+				instrsOf(f, func(in ssa.Instruction) {
+					if r, ok := in.(*ssa.Return); ok {
+						rets = append(rets, r)
+					}
+				})
+				if len(rets) == 1 && len(rets[0].Results) == 1 {
+					sub := &Frame{Fn: f, Site: x, Parent: fr, Args: x.Call.Args}
+					if fr != nil {
+						sub.Depth = fr.Depth + 1
+					}
+					return p.desc(rets[0].Results[0], sub, d+1)
+				}
+			}
+		}
 		var args []string
 		for _, a := range x.Call.Args {
 			args = append(args, p.desc(a, fr, d+1))
